@@ -133,5 +133,49 @@ theorem paths_flipMat (B m : ℕ) (p : Fin B → Fin m → α) :
     simp [flatM, List.ofFn_succ, (ih _ z hz).1, (ih _ z hz).2, (paths_flipVec m (p 0) y hy).1,
       (paths_flipVec m (p 0) y hy).2]
 
+/-! ### replay succeeds exactly on recordings that are long enough -/
+
+theorem paths_ne_nil (m : Prog α β) : m.paths ≠ [] := by
+  induction m with
+  | ret b => simp [paths]
+  | flip p k ih => simp [paths, ih]
+
+/-- a replay either succeeds or the recording is shorter than some complete execution -/
+theorem run_isSome_or_short (m : Prog α β) (ds : List Bool) :
+    (m.run ds).isSome ∨ ∃ x ∈ m.paths, ds.length < x.2.2.length := by
+  induction m generalizing ds with
+  | ret b => left; rfl
+  | flip p k ih =>
+    cases ds with
+    | nil =>
+      right
+      obtain ⟨y, hy⟩ := List.exists_mem_of_ne_nil _ (paths_ne_nil (k true))
+      exact ⟨(y.1, p :: y.2.1, true :: y.2.2), by simp only [paths, List.mem_append, List.mem_map]; exact Or.inl ⟨y, hy, rfl⟩,
+        by simp⟩
+    | cons d ds =>
+      rcases ih d ds with hs | ⟨y, hy, hlt⟩
+      · left
+        obtain ⟨r, hr⟩ := Option.isSome_iff_exists.mp hs
+        simp [run, hr]
+      · right
+        refine ⟨(y.1, p :: y.2.1, d :: y.2.2), ?_, by simpa using hlt⟩
+        simp only [paths, List.mem_append, List.mem_map]
+        cases d
+        · exact Or.inr ⟨y, hy, rfl⟩
+        · exact Or.inl ⟨y, hy, rfl⟩
+
+/-- if every execution of `m` makes `c` draws, a recording is replayed successfully iff it holds at least `c` draws -/
+theorem draws_run_isSome {m : Prog α β} {c : ℕ} (hm : Draws m c) (ds : List Bool) : (m.run ds).isSome ↔ c ≤ ds.length := by
+  constructor
+  · intro hs
+    obtain ⟨⟨b, ps, rest⟩, hr⟩ := Option.isSome_iff_exists.mp hs
+    have := (draws_run hm hr).2
+    omega
+  · intro hc
+    rcases run_isSome_or_short m ds with hs | ⟨x, hx, hlt⟩
+    · exact hs
+    · have := (hm x hx).1
+      omega
+
 end Prog
 end QV
